@@ -359,6 +359,24 @@ func (fx *fixture) mutationsFor(h int64) []mutation {
 			})
 		}
 	}
+	// whole commit re-signed with shifted timestamps: the true median relative to LastBlockTime
+	lbt := st.pre.LastBlockTime
+	for name, tsf := range map[string]func(i int) time.Time{
+		"all=lastBlockTime":     func(i int) time.Time { return lbt },
+		"all=lastBlockTime-1s":  func(i int) time.Time { return lbt.Add(-time.Second) },
+		"all=lastBlockTime+1ns": func(i int) time.Time { return lbt.Add(1) },
+		"spreadAroundLastBlockTime": func(i int) time.Time { return lbt.Add(time.Duration(i-1) * time.Millisecond) },
+		"spreadEndingAtLastBlockTime": func(i int) time.Time { return lbt.Add(time.Duration(i-nv+1) * time.Millisecond) },
+	} {
+		tsf := tsf
+		for _, f := range []int{fxCommitHash, fxCommitHash | fxTime} {
+			add("commit/resigned-ts:"+name, f, func(b *types.Block) {
+				for i := range b.LastCommit.Precommits {
+					b.LastCommit.Precommits[i] = fx.node.signVote(lastVals, i, types.PrecommitType, h-1, 0, prevID, tsf(i), chainID)
+				}
+			})
+		}
+	}
 	// size, duplicates, reorder
 	for k := 0; k < nv; k++ {
 		k := k
